@@ -368,9 +368,9 @@ example : okSV1 (1, 0) [2, 1] [] = true ∧ (packV1 (1, 0) id ⟨1, [2, 1], [], 
 theorem mkCodec_ok (v d : ValCodec) (hv : v.OK) (hd : d.OK) (hvd : ∀ x, v.okV x = true → d.okV x = true)
     (hdp : ∀ xs, d.okP xs = true) (v1 : Bool) (lv : Nat × Nat) (comp : List Nat → List Nat)
     (decomp : List Nat → Option (List Nat)) (hcmp : ∀ b, decomp (comp b) = some b) :
-    (mkCodec v d v1 lv comp decomp).OKOn 255 v.okP (okSOf v1 lv) := by
-  refine ⟨fun m xs hm hx => lv_ok m xs hm hx, fun xs hx hp => hv xs hx hp,
-    fun xs hx => hd xs (fun x h => hvd x (hx x h)) (hdp xs), fun xs hx => idx_ok xs hx, hcmp, ?_⟩
+    (mkCodec v d v1 lv comp decomp).OKOn 255 (fun _ => true) v.okP (okSOf v1 lv) := by
+  refine ⟨fun m xs hm hx _ => lv_ok m xs hm hx, fun xs hx hp => hv xs hx hp,
+    fun xs hx => hd xs (fun x h => hvd x (hx x h)) (hdp xs), fun xs hx _ => idx_ok xs hx, hcmp, ?_⟩
   intro p hp
   cases v1 with
   | true => exact unpackV1_packV1 lv comp decomp hcmp p (by simpa [okSOf] using hp)
